@@ -908,6 +908,27 @@ def _scale_rule(rep, qn, b, locs, env, vel_dim, acc_dim):
             continue
         op, ex, node = sites[0]
         f, l = A.loc(node)
+        # the factor must be applied whenever this output is requested: no enclosing condition on anything but <name>.has_value()
+        par = {}
+        for p_ in A.walk(b):
+            for c_ in A.kids(p_):
+                par[id(c_)] = p_
+        cur, foreign = node, None
+        while id(cur) in par:
+            p_ = par[id(cur)]
+            if p_.get("kind") == "IfStmt":
+                c_ = A.to_expr(A.kids(p_)[0])
+                others = sorted(r_ for r_ in A.refs(c_) if r_ != name and r_ in ("vel", "acc", "jer"))
+                in_else = len(A.kids(p_)) > 2 and A.kids(p_)[2] is cur
+                if others:
+                    foreign = (A.show(c_)[:60] + (" [else]" if in_else else ""), p_)
+            cur = p_
+        if foreign:
+            ff, fl = A.loc(foreign[1])
+            rep.instance("S5", qn, name + "-scale-guard", ok=False, sample={"file": fe.rel(ff), "line": fl, "guard": foreign[0]})
+            rep.violation(Finding("S5", qn, name + "-scale-guard",
+                                  "the chain-rule factor of %s is applied only under `%s`: when %s is requested without the other output it is returned in the "
+                                  "spline parameter's units" % (name, foreign[0], name), ff, fl))
         try:
             dd = dim_of(ex, env, locs)
         except DimErr as e:
